@@ -50,7 +50,7 @@ class ValGen(object):
         # mandatory members, so leaving them out is an invalid value there.
         self.absent_additions = absent_additions
         self.size_left = 6000
-        self.nodes_left = 25000
+        self.nodes_left = 8000
         self.pool = {}
         # Probability of choosing an extension-addition alternative of an
         # extensible CHOICE / ENUMERATED.
@@ -213,7 +213,7 @@ class ValGen(object):
         self.size_left = 150000 if self.big else 6000
         # Wide non-recursive types with long mandatory lists can still blow
         # up below max_depth: bound the number of nodes of one value.
-        self.nodes_left = 120000 if self.big else 25000
+        self.nodes_left = 120000 if self.big else 8000
 
         return self.gen(desc, module_name, 0)
 
@@ -313,6 +313,9 @@ class ValGen(object):
             # Big permitted range: stay small most of the time.
             return min(hi, lo + rng.choice(LEN_BOUNDARY)), lo
 
+        if lo > hi:
+            raise Unsupported('empty range')
+
         return rng.choice([lo, hi, rng.randint(lo, hi),
                            rng.randint(lo, hi)]), lo
 
@@ -344,15 +347,24 @@ class ValGen(object):
             if pool and rng.random() < 0.3:
                 import copy
 
-                return copy.deepcopy(rng.choice(pool))
+                cost, pooled = rng.choice(pool)
 
+                # (A pooled value counts against the budget of the value
+                # it becomes part of.)
+                if cost <= self.nodes_left:
+                    self.nodes_left -= cost
+
+                    return copy.deepcopy(pooled)
+
+        before = self.nodes_left
         value = self.gen_resolved(kind, resolved, chain, outer_module,
                                   module_name, depth)
 
         if pool_key is not None and len(self.pool[pool_key]) < 6:
             import copy
 
-            self.pool[pool_key].append(copy.deepcopy(value))
+            self.pool[pool_key].append((before - self.nodes_left + 1,
+                                        copy.deepcopy(value)))
 
         return value
 
@@ -469,6 +481,11 @@ class ValGen(object):
 
         if hi is None:
             return lo + rng.choice([0, 1, 200, 2 ** 33])
+
+        if lo > hi:
+            # (A bound whose name means something else than this reader
+            # thinks: a name that is both a value and a named number.)
+            raise Unsupported('empty range')
 
         return rng.choice([lo, hi, rng.randint(lo, hi), rng.randint(lo, hi)])
 
